@@ -17,7 +17,7 @@ func TestVerifC01(t *testing.T) {
 	}
 	alpha := vhAlphabetBase()
 	depth := c.Pick(6, 8)
-	c.Rule(fmt.Sprintf("explicit-state BFS over histories of SetLocalDescription/SetRemoteDescription on fresh real PeerConnections (successor = replay + one call), alphabet of %d operations (offer/pranswer/answer/rollback x local fresh|stale / remote from two static peer descriptions), merged on the canonical state (signaling state, types of the four descriptions, created-offer/answer flags) to depth %d; plus the full unmerged tree to depth 3 (quick) / 4 (thorough); every step compared with an independent JSEP reference model; distinct = canonical states x outcome classes", len(alpha), depth))
+	c.Rule(fmt.Sprintf("explicit-state BFS over histories of SetLocalDescription/SetRemoteDescription on fresh real PeerConnections (successor = replay + one call), alphabet of %d operations (offer/pranswer/answer/rollback x local fresh|stale / remote from two static peer descriptions), merged on the canonical state (signaling state, types of the four descriptions, created-offer/answer flags) to depth %d; plus the full unmerged tree to depth 3 (quick) / 5 (thorough); every step compared with an independent JSEP reference model; distinct = canonical states x outcome classes", len(alpha), depth))
 	c.Set("alphabet", fmt.Sprint(alpha))
 	c.Set("depth_merged", depth)
 	visit := func(hist []vhOp, r *vhRun) {
@@ -30,7 +30,7 @@ func TestVerifC01(t *testing.T) {
 		}
 	}
 	vhBFS(t, c, alpha, depth, true, visit)
-	full := c.Pick(3, 4)
+	full := c.Pick(3, 5)
 	c.Set("depth_full_tree", full)
 	vhBFS(t, c, alpha, full, false, visit)
 }
